@@ -18,6 +18,10 @@
                        proc (wan only): user / daepid / daemark (sent by dae itself)
      Rev(kind)         a packet of the reverse direction at the WAN-ingress hook (refreshes / closes / creates reverse state)
      Tick(d), RulesChange(dec), AliveFlip(g)
+     Janitor(lead)     the control plane's conn-state janitor scans the table (control_plane.go cleanupConnStateMap): it samples
+                       the clock, then reads the entries.  lead = a packet refreshed the flow's entry after the clock sample
+                       and before the entry was read (the entry is then NEWER than the janitor's "now").  The janitor ends
+                       tracking exactly when the kernel would: after the idle timeouts, never before.
    Every Pkt yields the observation the real hook must produce: verdict (OK / SHOT / REDIRECT), skb mark, and for a
    REDIRECT the decision the control plane must recover with RetrieveRoutingResult.
 
@@ -176,8 +180,16 @@ RulesChange(d) == /\ d # rules /\ rules' = d /\ hist' = Append(hist, [Rec("rules
 AliveFlip(g) == /\ alive' = [alive EXCEPT ![g] = ~@] /\ hist' = Append(hist, Rec("alive", g, "", ObsOf(IF alive[g] THEN "down" ELSE "up", 0, NoDec)))
                 /\ UNCHANGED <<now, conn, handoff, rules, rules0>>
 
+Janitor(lead) ==
+  /\ L4 # "dns" /\ conn.present
+  /\ (lead => conn.last = now)
+  /\ conn' = IF ~lead /\ Expired(conn) THEN NoConn ELSE conn
+  /\ hist' = Append(hist, Rec("janitor", IF lead THEN "lead" ELSE "plain", "", ObsOf(IF ~lead /\ Expired(conn) THEN "gone" ELSE "kept", 0, NoDec)))
+  /\ UNCHANGED <<now, handoff, rules, rules0, alive>>
+
 Next == /\ Len(hist) < MaxEvents
         /\ \/ \E k \in Kinds, p \in Procs : Pkt(k, p)
+           \/ \E lead \in BOOLEAN : Janitor(lead)
            \/ \E k \in Kinds : Rev(k)
            \/ \E d \in Ticks : Tick(d)
            \/ \E d \in Decisions : RulesChange(d)
@@ -207,6 +219,8 @@ DnsStateless == L4 = "dns" => (~conn.present /\ \A i \in Pkts : ~hist[i].tracked
 OwnTrafficNeverCaptured == \A i \in 1..Len(hist) : (hist[i].ev = "pkt" /\ hist[i].p \in {"daepid", "daemark"} /\ (L4 # "tcp" \/ hist[i].k = "SYN")) => hist[i].obs.verdict = "OK"
 \* replies of flows first seen from the WAN side pass untouched
 WanOriginatedRepliesPass == \A i \in 1..Len(hist) : (hist[i].ev = "pkt" /\ hist[i].gov = NoDec) => hist[i].obs = ObsOf("OK", 0, NoDec)
+\* tracking is ended by the janitor only after the idle timeouts
+JanitorOnlyExpired == [][ (Len(hist') > Len(hist) /\ hist'[Len(hist')].ev = "janitor" /\ conn.present /\ ~conn'.present) => Expired(conn) ]_vars
 View == <<now, conn, handoff, rules, rules0, alive>>
 
 Behaviour == [l4 |-> L4, side |-> Side, init |-> rules0, hist |-> hist]
